@@ -15,14 +15,15 @@ mkdir -p "$ISO/verif"
 rsync -a --exclude target --exclude out --exclude .git --exclude seeded --exclude fuzz /verif/ "$ISO/verif/"
 sed -i "s#/repo/#$ISO/repo/#g" "$ISO/verif/harness/Cargo.toml"
 [ -d "$ISO/target" ] && mv "$ISO/target" "$ISO/verif/harness/target"
-if [ $# -gt 0 ]; then LIST="$*"; else LIST=$(ls /verif/seeded); fi
+SD=${SD:-/verif/seeded}
+if [ $# -gt 0 ]; then LIST="$*"; else LIST=$(ls $SD); fi
 for D in $LIST; do
-  P=/verif/seeded/$D/patch.diff
+  P=$SD/$D/patch.diff
   [ -f "$P" ] || continue
   ID=$(echo "$D" | cut -c1-3)
   git -C "$ISO/repo" checkout -q -- .
   if ! git -C "$ISO/repo" apply "$P" 2>/dev/null; then
-    ALT=$(ls /verif/seeded/$D/patch_rebased*.diff 2>/dev/null | head -1)
+    ALT=$(ls $SD/$D/patch_rebased*.diff 2>/dev/null | head -1)
     if [ -n "$ALT" ] && git -C "$ISO/repo" apply "$ALT" 2>/dev/null; then :; else echo "$D: patch does not apply"; continue; fi
   fi
   for S in $SEEDS; do
